@@ -118,8 +118,11 @@ func raceRun(a []string) (string, []string) {
 	nrpc := 0
 	for i, g := 0, atoiOr(a[0], 0); i < g; i++ {
 		ops := strings.Split(a[3], ",")
-		if ops[i%len(ops)] == "rpc" {
+		switch ops[i%len(ops)] {
+		case "rpc":
 			nrpc += 2
+		case "rpcstorm":
+			nrpc += 40
 		}
 	}
 	if len(ids) != nrpc {
@@ -156,7 +159,9 @@ func runC19(r *Runner) string {
 	groups := [][]string{
 		{"pubkey", "pubkeyu", "pubkeyx", "ecdsasign", "ecdsaverify", "schnorrsign", "schnorrverify", "taptweak"},
 		{"bip32master", "bip32priv", "bip32pub"},
-		{"base58", "wif", "addrmake", "addrdecode", "bech32"},
+		{"base58", "wif", "addrmake", "addrdecode", "bech32", "xkey"},
+		{"xkey"},
+		{"rpcstorm"},
 		{"mnemonic"},
 		{"txparse", "sighash"},
 		{"rpc"},
